@@ -259,6 +259,12 @@ def rule_k(ctx):
     b = F.one(RTRAIT + "empty")
     at = b.atoms({"c": {"l": 0, "p": []}})
     wb = has_call(at, "WrappedBlock::<T>::is_empty") and has_field(at, SUBR, "wrapping")
+    if not wb:
+        # `self.wrapping.as_ref().map_or(true, |w| w.is_empty())`: the test sits in the closure the Option adaptor calls
+        inner = [c for _x, c in transitive_closures(F, b) if c.calls(lambda cd, t: ends(cd, "WrappedBlock::<T>::is_empty"))]
+        adapt = [t for _bb, t in b.calls(lambda cd, t: callee_method(t) in ("map_or", "is_none_or", "is_some_and", "map_or_else", "map", "all"))
+                 if has_field(b.atoms(t["args"][0]), SUBR, "wrapping")]
+        wb = bool(inner) and bool(adapt) and has_field(at, SUBR, "wrapping")
     ctx.check(wb, "C05-K", "empty():consults-the-open-block", b.span, b.id,
               "SubRenderer::empty() does not ask the open wrapped block whether it has content: a cell with only white space "
               "counts as non-empty although it renders no line")
